@@ -24,13 +24,13 @@ def run(R):
     P = R.P
     size_rules(R, 'C01')
     R.ob('C01.TBL.1', 'type and length numbers are written and announced in the shortest form (VAR-NUMBER), all four codec functions agree')
-    tabs = varnum_tables(P)
-    bad = [x for x in compare_varnum(tabs) if not x[3]]
+    tabs = varnum_tables(P, ('get_tl_num_size', 'write_tl_num', 'parse_tl_num'))
+    bad = [x for x in compare_varnum(tabs, only=('get_tl_num_size', 'write_tl_num', 'parse_tl_num')) if not x[3]]
     if bad:
         for (what, a, b, okay, detail) in bad:
             R.fail('C01.TBL.1', f'{a} :: {what}', 'ndn.encoding.tlv_var.' + a, what, f'{a}: {what}: {detail}', tabs[a]['site'])
     else:
-        R.ok('C01.TBL.1', 'VAR-NUMBER tables', tabs['write_tl_num']['site'], f'{len(compare_varnum(tabs))} table facts')
+        R.ok('C01.TBL.1', 'VAR-NUMBER tables', tabs['write_tl_num']['site'], f'{len(compare_varnum(tabs, only=('get_tl_num_size', 'write_tl_num', 'parse_tl_num')))} table facts')
     # ------------------------------------------------------------------ SIZ.2 shrink_length
     R.ob('C01.SIZ.2', 'shrink_length: length rewritten as size - val; if the header shrinks, type/length are rewritten `diff` bytes later and the '
                       'view starts at diff (value not moved); both views end at -val')
